@@ -68,6 +68,10 @@ class Obs:
         return sum(1 for i in range(step + 1, self.n) if self.ops[i] == "iter")
 
 
+def injected_fatal(o):
+    return any(tok in FATAL for op in o.ops if op.startswith("script write") for tok in op.split()[2:])
+
+
 def cut_step(o):
     """first step at which something legitimately cuts the outgoing stream short: a forced close (any kind), the
     peer closing or half-closing (muduo treats read()==0 as close), the owner destroying the connection, a fatal
@@ -85,9 +89,10 @@ def cut_step(o):
         op = o.ops[i].split()[0]
         if op in ("peerClose", "peerShutWr", "ownerDestroy", "peerReset"):
             take(i, op)
-        for w in o.env(i, "write"):
-            if w[3] in FATAL:
-                take(i, "fatal write error " + w[3])
+        if injected_fatal(o):
+            for w in o.env(i, "write"):
+                if w[3] in FATAL:
+                    take(i, "injected fatal write error " + w[3])
         if any(l.startswith("abort ") or l.startswith("uaf ") for l in o.blocks[i]):
             take(i, "abort")
     return best
@@ -147,9 +152,10 @@ def stream_oracle(o, check_fin=True):
     L, F, late = classify_sends(o)
     R = o.received[-1] if o.received else b""
     Ld, Fd = [d for _, d in L], [d for _, d in F]
-    if any(w[3] in FATAL for i in range(o.n) for w in o.env(i, "write")):
+    if injected_fatal(o):
         # an injected EPIPE/ECONNRESET makes the code drop that block (the real kernel would have reset the
-        # connection); what follows is no longer a stream the property speaks about
+        # connection); what follows is no longer a stream the property speaks about.  A fatal error the harness did
+        # NOT inject (e.g. EPIPE because the code half-closed before writing) is the code's own doing and is judged.
         return fails
     ok, off = match_merge(R, Ld, Fd)
     if not ok:
